@@ -3,9 +3,8 @@ From RbxVerif Require Import Base Bytes.
 From Coq Require Import Lia ZifyBool ZifyN.
 Open Scope N_scope.
 
-(* lia understands div/mod by constants through this hook (used only locally, via [dlia]). *)
-Ltac dlia := Z.div_mod_to_equations; lia.
-Ltac Zify.zify_post_hook ::= Z.div_mod_to_equations.
+(* lia understands div/mod by constants through this hook; Local: not exported to importers. *)
+Local Ltac Zify.zify_post_hook ::= Z.div_mod_to_equations.
 
 (* ------------------------------------------------------------------------------------------ *)
 (* 1. little/big-endian fixed-width integers                                                    *)
@@ -422,7 +421,7 @@ Proof.
   { rewrite Forall_forall in Hrows. apply Hrows. apply nth_In. lia. }
   etransitivity; [|apply (map_nth_seq (nth i rows []) 0)]. rewrite Hw.
   apply map_ext_in. intros j Hj. apply in_seq in Hj.
-  Show. rewrite nth_byte_interleave by lia. reflexivity.
+  rewrite nth_byte_interleave; [reflexivity|exact (proj2 Hi)|exact (proj2 Hj)].
 Qed.
 
 Lemma nth_map_seq {B} (f : nat -> B) d s n k :
@@ -457,7 +456,7 @@ Proof.
   intros H. apply bytes_ok_forall. intros x Hx. unfold interleave in Hx.
   apply in_flat_map in Hx. destruct Hx as [j [_ Hx]]. apply in_map_iff in Hx.
   destruct Hx as [r [<- Hr]]. rewrite Forall_forall in H. specialize (H r Hr).
-  unfold nth_byte. destruct (nth_in_or_default j r 0) as [Hin|->]; [|reflexivity].
+  unfold nth_byte. destruct (nth_in_or_default j r 0) as [Hin| ->]; [|reflexivity].
   revert Hin. now apply bytes_ok_forall.
 Qed.
 
@@ -647,3 +646,184 @@ Proof.
     unfold pret in H. injection H as _ <-.
     apply Hp in Ha. apply IH in Hr. lia.
 Qed.
+
+(* ------------------------------------------------------------------------------------------ *)
+(* 7. array codecs                                                                              *)
+(* ------------------------------------------------------------------------------------------ *)
+
+(* common shape of all interleaved array codecs *)
+Lemma array_roundtrip_gen {A} w (enc : A -> bytes) (dec : bytes -> A) vs rest :
+  (forall v, In v vs -> length (enc v) = w /\ dec (enc v) = v) ->
+  pbind (read_exact (length vs * w))
+        (fun buf => pret (List.map dec (deinterleave w (length vs) buf)))
+        (interleave w (List.map enc vs) ++ rest)
+  = Ok (vs, rest).
+Proof.
+  intros H.
+  rewrite (pbind_ok_intro _ _ _ (interleave w (List.map enc vs)) rest).
+  - unfold pret. f_equal. f_equal.
+    rewrite <- (map_length enc vs) at 1.
+    rewrite deinterleave_interleave.
+    + rewrite map_map. rewrite <- (map_id vs) at 2. apply map_ext_in. intros v Hv. now apply H.
+    + apply Forall_forall. intros r Hr. apply in_map_iff in Hr. destruct Hr as [v [<- Hv]]. now apply H.
+  - replace (length vs * w)%nat with (length (interleave w (List.map enc vs)))
+      by (rewrite interleave_length, map_length; lia).
+    apply read_exact_app.
+Qed.
+
+Lemma i32_cell_roundtrip v : in_i32 v = true ->
+  untransform_i32 (wrap_s 32 (of_be (be_bytes 4 (i32_bits (transform_i32 v))))) = v.
+Proof.
+  intros H. unfold i32_bits. rewrite be4_roundtrip by apply wrap_u32_bound.
+  rewrite (wrap_roundtrip32 _ (transform_i32_range v)). now apply zigzag32_roundtrip.
+Qed.
+
+Lemma i64_cell_roundtrip v : in_i64 v = true ->
+  untransform_i64 (wrap_s 64 (of_be (be_bytes 8 (i64_bits (transform_i64 v))))) = v.
+Proof.
+  intros H. unfold i64_bits. rewrite be8_roundtrip by apply wrap_u64_bound.
+  rewrite (wrap_roundtrip64 _ (transform_i64_range v)). now apply zigzag64_roundtrip.
+Qed.
+
+Lemma i32_array_roundtrip vs rest :
+  Forall (fun v => in_i32 v = true) vs ->
+  dec_i32_array (length vs) (enc_i32_array vs ++ rest) = Ok (vs, rest).
+Proof.
+  intros H. unfold dec_i32_array, enc_i32_array.
+  apply (array_roundtrip_gen 4 (fun v => be_bytes 4 (i32_bits (transform_i32 v)))
+           (fun row => untransform_i32 (wrap_s 32 (of_be row)))).
+  intros v Hv. split; [apply be_bytes_length|].
+  rewrite Forall_forall in H. now apply i32_cell_roundtrip, H.
+Qed.
+
+Lemma u32_array_roundtrip vs rest :
+  Forall (fun v => v < 2 ^ 32) vs ->
+  dec_u32_array (length vs) (enc_u32_array vs ++ rest) = Ok (vs, rest).
+Proof.
+  intros H. unfold dec_u32_array, enc_u32_array.
+  apply (array_roundtrip_gen 4 (be_bytes 4) of_be).
+  intros v Hv. split; [apply be_bytes_length|].
+  rewrite Forall_forall in H. apply be4_roundtrip. exact (H v Hv).
+Qed.
+
+Lemma f32_array_roundtrip vs rest :
+  Forall (fun v => v < 2 ^ 32) vs ->
+  dec_f32_array (length vs) (enc_f32_array vs ++ rest) = Ok (vs, rest).
+Proof.
+  intros H. unfold dec_f32_array, enc_f32_array.
+  apply (array_roundtrip_gen 4 (fun v => be_bytes 4 (rotl32 v)) (fun row => rotr32 (of_be row))).
+  intros v Hv. split; [apply be_bytes_length|].
+  rewrite Forall_forall in H. specialize (H v Hv).
+  rewrite be4_roundtrip by exact (rotl32_bound v H). now apply rot32_roundtrip.
+Qed.
+
+Lemma i64_array_roundtrip vs rest :
+  Forall (fun v => in_i64 v = true) vs ->
+  dec_i64_array (length vs) (enc_i64_array vs ++ rest) = Ok (vs, rest).
+Proof.
+  intros H. unfold dec_i64_array, enc_i64_array.
+  apply (array_roundtrip_gen 8 (fun v => be_bytes 8 (i64_bits (transform_i64 v)))
+           (fun row => untransform_i64 (wrap_s 64 (of_be row)))).
+  intros v Hv. split; [apply be_bytes_length|].
+  rewrite Forall_forall in H. now apply i64_cell_roundtrip, H.
+Qed.
+
+Lemma ref_array_roundtrip vs rest :
+  Forall (fun v => in_i32 v = true) vs ->
+  dec_ref_array (length vs) (enc_ref_array vs ++ rest) = Ok (vs, rest).
+Proof.
+  intros H. unfold dec_ref_array, enc_ref_array.
+  rewrite (pbind_ok_intro _ _ _ (delta_encode 0 vs) rest).
+  - unfold pret. now rewrite delta_roundtrip_gen.
+  - rewrite <- (delta_encode_length 0 vs) at 1. apply i32_array_roundtrip, delta_encode_range.
+Qed.
+
+(* encoded sizes and well-formedness of the produced bytes *)
+Lemma enc_i32_array_length vs : length (enc_i32_array vs) = (4 * length vs)%nat.
+Proof. unfold enc_i32_array. now rewrite interleave_length, map_length. Qed.
+Lemma enc_u32_array_length vs : length (enc_u32_array vs) = (4 * length vs)%nat.
+Proof. unfold enc_u32_array. now rewrite interleave_length, map_length. Qed.
+Lemma enc_f32_array_length vs : length (enc_f32_array vs) = (4 * length vs)%nat.
+Proof. unfold enc_f32_array. now rewrite interleave_length, map_length. Qed.
+Lemma enc_i64_array_length vs : length (enc_i64_array vs) = (8 * length vs)%nat.
+Proof. unfold enc_i64_array. now rewrite interleave_length, map_length. Qed.
+Lemma enc_ref_array_length vs : length (enc_ref_array vs) = (4 * length vs)%nat.
+Proof. unfold enc_ref_array. now rewrite enc_i32_array_length, delta_encode_length. Qed.
+
+Lemma interleave_map_ok {A} w (f : A -> bytes) vs :
+  (forall v, bytes_ok (f v) = true) -> bytes_ok (interleave w (List.map f vs)) = true.
+Proof.
+  intros H. apply interleave_ok, Forall_forall. intros r Hr. apply in_map_iff in Hr.
+  destruct Hr as [v [<- _]]. apply H.
+Qed.
+
+Lemma enc_i32_array_ok vs : bytes_ok (enc_i32_array vs) = true.
+Proof. apply interleave_map_ok. intros; apply be_bytes_ok. Qed.
+Lemma enc_u32_array_ok vs : bytes_ok (enc_u32_array vs) = true.
+Proof. apply interleave_map_ok. intros; apply be_bytes_ok. Qed.
+Lemma enc_f32_array_ok vs : bytes_ok (enc_f32_array vs) = true.
+Proof. apply interleave_map_ok. intros; apply be_bytes_ok. Qed.
+Lemma enc_i64_array_ok vs : bytes_ok (enc_i64_array vs) = true.
+Proof. apply interleave_map_ok. intros; apply be_bytes_ok. Qed.
+Lemma enc_ref_array_ok vs : bytes_ok (enc_ref_array vs) = true.
+Proof. apply enc_i32_array_ok. Qed.
+
+(* decoders: short input is EOF, never a panic; success consumes exactly len * width bytes *)
+Lemma dec_i32_array_short len b : (length b < len * 4)%nat -> dec_i32_array len b = Err ERR_EOF.
+Proof. intros H. unfold dec_i32_array, pbind. now rewrite read_exact_short. Qed.
+
+Lemma dec_i32_array_consumes len b vs b' :
+  dec_i32_array len b = Ok (vs, b') -> length vs = len /\ length b = (len * 4 + length b')%nat.
+Proof.
+  unfold dec_i32_array. intros H. apply pbind_ok in H. destruct H as [h [b1 [H1 H2]]].
+  unfold pret in H2. injection H2 as <- <-. split.
+  - now rewrite map_length, deinterleave_length.
+  - now apply read_exact_consumes in H1.
+Qed.
+
+(* decoded values are always in range, whatever the input bytes *)
+Lemma dec_i32_array_range len b vs b' :
+  dec_i32_array len b = Ok (vs, b') -> Forall (fun v => in_i32 v = true) vs.
+Proof.
+  unfold dec_i32_array. intros H. apply pbind_ok in H. destruct H as [h [b1 [_ H2]]].
+  unfold pret in H2. injection H2 as <- _. apply Forall_forall. intros v Hv.
+  apply in_map_iff in Hv. destruct Hv as [r [<- _]]. apply untransform_i32_range.
+Qed.
+
+(* ------------------------------------------------------------------------------------------ *)
+Print Assumptions le_roundtrip.
+Print Assumptions be_roundtrip.
+Print Assumptions of_le_bound.
+Print Assumptions of_be_bound.
+Print Assumptions le_of_le.
+Print Assumptions be_of_be.
+Print Assumptions wrap_roundtrip32.
+Print Assumptions wrap_roundtrip64.
+Print Assumptions wrap_u_bound.
+Print Assumptions wrap_us.
+Print Assumptions wrap_us'.
+Print Assumptions to_i32_range.
+Print Assumptions transform_i32_spec.
+Print Assumptions transform_i64_spec.
+Print Assumptions zigzag32_roundtrip.
+Print Assumptions zigzag32_roundtrip'.
+Print Assumptions zigzag64_roundtrip.
+Print Assumptions zigzag64_roundtrip'.
+Print Assumptions rot32_roundtrip.
+Print Assumptions rot32_roundtrip'.
+Print Assumptions rot64_roundtrip.
+Print Assumptions rot64_roundtrip'.
+Print Assumptions interleave_length.
+Print Assumptions deinterleave_interleave.
+Print Assumptions interleave_deinterleave.
+Print Assumptions delta_roundtrip.
+Print Assumptions delta_roundtrip'.
+Print Assumptions i32_array_roundtrip.
+Print Assumptions u32_array_roundtrip.
+Print Assumptions f32_array_roundtrip.
+Print Assumptions i64_array_roundtrip.
+Print Assumptions ref_array_roundtrip.
+Print Assumptions take_n_length.
+Print Assumptions prepeat_length.
+Print Assumptions prepeat_consumes.
+Print Assumptions read_le_consumes.
